@@ -28,7 +28,7 @@ class Rule:
         self.instances.append({'instance': instance, 'verdict': 'violated', 'where': where, 'detail': detail, 'path': path, 'nontrivial': True})
 
     def broken(self, reason):
-        self.broken_reason = reason
+        self.broken_reason = reason if not self.broken_reason else self.broken_reason + ' | ' + reason
 
     def count(self):
         return len(self.instances)
